@@ -195,6 +195,16 @@ CLAIMS.update({
           'the specification\'s reach.'),
 })
 
+CLAIMS.update({
+ 'C12': dict(engine='FPyMachine', technique=TECH_M + '; the same machine run is the expectation for the reference FPCore evaluator on the compiled core and for the re-read function', text=(
+     'Programs of the FPCore-expressible subset (explicitly rounded constants, sequential and nested with-blocks with statements after an '
+     'inner block, if / while / for, tuples, fixed-size lists, reductions) are generated as source text. The abstract machine runs the real '
+     'front-end AST on every argument vector; MCMachine!Judge compares its outcome with three observed ones: the real interpreter on the '
+     'original, titanfp\'s Interpreter on FPCoreCompiler().compile(f), and the real interpreter on Function.from_fpcore(compile(f)).'),
+     note='Small IEEE formats with a wide exponent range (titanfp\'s overflow under the directed modes is not IEEE\'s: those cases are counted, '
+          'not judged); titanfp is a trusted external evaluator. Known finding: the continuation of a with-block is emitted inside its annotation.'),
+})
+
 ENGINES = [
  ('Elementary', 'spec/Elementary.tla', ['C03'], 'correct rounding given an enclosure of the true value'),
  ('FactMachine', 'spec/FactMachine.tla', ['C13'], 'abstract machine with analysis facts checked on every step'),
@@ -213,7 +223,7 @@ ENGINES = [
  ('NumberOps', 'spec/NumberOps.tla', ['C05'], 'denotational statement of the number types'),
  ('Encoding', 'spec/Encoding.tla', ['C16'], 'bit layouts and ordinal relations'),
  ('Stochastic', 'spec/Stochastic.tla', ['C17'], 'stochastic rounding count law'),
- ('FPyMachine', 'spec/FPyMachine.tla', ['C04', 'C07', 'C08', 'C09'], 'small-step abstract machine for FPy programs (real ASTs as data)'),
+ ('FPyMachine', 'spec/FPyMachine.tla', ['C04', 'C07', 'C08', 'C09', 'C12', 'C13', 'C14', 'C20'], 'small-step abstract machine for FPy programs (real ASTs as data)'),
  ('MCMachine', 'spec/MCMachine.tla', ['C04'], 'machine runs judged against recorded interpreter outcomes; machine invariants'),
  ('EFT', 'spec/EFT.tla', ['C20'], 'laws of the error-free transformations on machine runs'),
  ('Literal', 'spec/Literal.tla', ['C06'], 'literal lexer and normal forms'),
